@@ -237,6 +237,30 @@ func runC15(w *World, tier string) (bool, interface{}) {
 					return repE
 				}
 			}
+			// the node process dies somewhere inside this submission (between reading the
+			// pool, posting, and the writes that retire the operation) and is restarted:
+			// the operator submits the file it still holds again if the operation is
+			// offered again. What was durably retired must stay retired (judged when the
+			// batch's proposal is re-posted at the end).
+			if genuine.IsSigningState() && w.Tape.Bool(1, 5, "dieInSubmit?") {
+				w.ArmCrash(i, 1+w.Tape.Choose(12, "dieAt"))
+				repC := submit(i, body, &inflight{node: i, op: o, expect: genuine.ResultMsgs, legit: true})
+				w.CrashAtGate = 0
+				if repC.Crashed || nd.Inc() == nil {
+					w.Stats.Fault("crash-hot")
+					kinds = append(kinds, "process-died-in-submit@"+string(o.Type))
+					if nd.Inc() == nil {
+						if err := w.RestartNode(nd); err != nil {
+							w.Fail("C15", "restart-failed", err.Error())
+						}
+					}
+					return repC
+				}
+				if repC.OK() {
+					answered[fmt.Sprintf("%d|%s", i, o.ID)]++
+				}
+				return repC
+			}
 			inf := &inflight{node: i, op: o, expect: genuine.ResultMsgs, legit: true}
 			blen := w.Board.Len()
 			rep := submit(i, body, inf)
